@@ -39,6 +39,16 @@ pub fn verify_stark_proof<
     verifier_circuit_fri_params: Option<FriParams>,
 ) -> Result<()> {
     ensure!(proof_with_pis.public_inputs.len() == S::PUBLIC_INPUTS);
+    // The challenges are derived from the proof's components: check that they are all present
+    // and well-formed first, so that a malformed proof is rejected instead of causing a panic.
+    validate_proof_shape(
+        &stark,
+        &proof_with_pis.proof,
+        &proof_with_pis.public_inputs,
+        config,
+        0,
+        0,
+    )?;
     let mut challenger = Challenger::<F, C::Hasher>::new();
 
     let challenges = proof_with_pis.get_challenges(
@@ -230,6 +240,15 @@ where
     C: GenericConfig<D, F = F>,
     S: Stark<F, D>,
 {
+    // The trace length is recovered from the first Merkle path of the opening proof.
+    let first_merkle_proof = proof
+        .opening_proof
+        .query_round_proofs
+        .first()
+        .and_then(|round| round.initial_trees_proof.evals_proofs.first());
+    ensure!(first_merkle_proof.is_some());
+    let lde_bits = config.fri_config.cap_height + first_merkle_proof.unwrap().1.siblings.len();
+    ensure!(lde_bits >= config.fri_config.rate_bits && lde_bits <= F::TWO_ADICITY);
     let degree_bits = proof.recover_degree_bits(config);
 
     let StarkProof {
@@ -256,10 +275,11 @@ where
     let fri_params = config.fri_params(degree_bits);
     let cap_height = fri_params.config.cap_height;
 
-    ensure!(trace_cap.height() == cap_height);
+    // Compare lengths: `MerkleCap::height` panics unless the length is a power of two.
+    ensure!(trace_cap.len() == 1 << cap_height);
     ensure!(
         quotient_polys_cap.is_none()
-            || quotient_polys_cap.as_ref().map(|q| q.height()) == Some(cap_height)
+            || quotient_polys_cap.as_ref().map(|q| q.len()) == Some(1 << cap_height)
     );
 
     ensure!(local_values.len() == S::COLUMNS);
@@ -319,7 +339,7 @@ where
             ensure!(ctl_zs_first.len() == num_ctl_zs);
         }
 
-        ensure!(auxiliary_polys_cap.height() == cap_height);
+        ensure!(auxiliary_polys_cap.len() == 1 << cap_height);
         ensure!(auxiliary_polys.len() == num_auxiliary);
         ensure!(auxiliary_polys_next.len() == num_auxiliary);
     } else {
